@@ -11,8 +11,11 @@ Import ListNotations.
 Local Open Scope N_scope.
 
 (* PreDef.hexcolor / _ColorProd: the HASH token value is a colour *)
+(* ^...\Z applied with match(): the whole value (the translator drops the two anchors) *)
+Definition fullmatch (r : re) (v : str) : bool :=
+  match m (S (length v)) r v (fun t => match t with [] => Some tt | _ => None end) with Some _ => true | None => false end.
 Definition valid_hash (v : str) : bool :=
-  matches (S (length v)) re_hexcolor_value v && matches (S (length v)) re_hexcolor_predef v.
+  fullmatch re_hexcolor_value v && fullmatch re_hexcolor_predef v.
 
 (* the HASH branch of ColorValue._setCssText *)
 Definition hash_rgb (v : str) : N * N * N :=
